@@ -50,7 +50,22 @@ extern struct WOPNBank verif_env_win0[1], verif_env_win1[1];
 #ifndef SEG_I
 #define SEG_I 0
 #endif
+#if defined(SEG_NAME_WINDOW)
+/* bank-name loops: only the first 35 bytes of the current bank (name, LSB, MSB) are touched; the window is an object
+ * of exactly those bytes, so any access beyond them is an out-of-bounds failure */
+struct verif_bank_head { char bank_name[33]; unsigned char bank_midi_lsb, bank_midi_msb; };
+extern struct verif_bank_head verif_env_name_win[1];
+#define SEG_WIN_BASE ((struct WOPNBank *)(void *)verif_env_name_win - j)
+#define SEG_RESTORE_WINDOWS bankslots[0] = (SEG_I == 0 ? SEG_WIN_BASE : verif_env_win0), bankslots[1] = (SEG_I == 1 ? SEG_WIN_BASE : verif_env_win1)
+#elif !defined(SEG_INS_WINDOW)
 #define SEG_RESTORE_WINDOWS bankslots[0] = verif_env_win0 - (SEG_I == 0 ? j : 0), bankslots[1] = verif_env_win1 - (SEG_I == 1 ? j : 0)
+#else
+/* record loops: the current record bankslots[SEG_I][j].ins[k] is a one-element typed window of its own (a symbolic k
+ * inside a 9 KB bank object made every char access of strncpy a symbolic byte operation over the whole bank) */
+extern struct WOPNInstrument verif_env_ins_win[1];
+#define SEG_WIN_BASE ((struct WOPNBank *)((char *)(verif_env_ins_win - k) - __builtin_offsetof(struct WOPNBank, ins)) - j)   /* element-scaled, like the code's own [j] and .ins[k] */
+#define SEG_RESTORE_WINDOWS bankslots[0] = (SEG_I == 0 ? SEG_WIN_BASE : verif_env_win0), bankslots[1] = (SEG_I == 1 ? SEG_WIN_BASE : verif_env_win1)
+#endif
 #define SEG_RESTORE_LOAD (outFile = g_in.file, i = g_in.i, j = g_in.j, k = g_in.k, version = g_in.version, \
     count_melodic_banks = g_in.cm, count_percussive_banks = g_in.cp, cursor = g_in.cursor, SEG_RESTORE_WINDOWS, \
     bankslots_sizes[0] = g_in.sz0, bankslots_sizes[1] = g_in.sz1, length = g_in.length, verif_length0 = g_in.length0)
